@@ -102,6 +102,7 @@ sc_iniparser_getint (dictionary * d, const char *key, int notfound,
   if (str == sc_iniparser_invalid_key) {
     return notfound;
   }
+  errno = 0;
   l = strtol (str, NULL, 0);
   if (iserror != NULL) {
     *iserror = (errno == ERANGE);
@@ -132,6 +133,7 @@ sc_iniparser_getsizet (dictionary * d, const char *key, size_t notfound,
   if (str == sc_iniparser_invalid_key) {
     return notfound;
   }
+  errno = 0;
 #ifndef SC_HAVE_STRTOLL
   ll = (long long) strtol (str, NULL, 0);
 #else
@@ -160,6 +162,7 @@ sc_iniparser_getdouble (dictionary * d, const char *key, double notfound,
   if (str == sc_iniparser_invalid_key) {
     return notfound;
   }
+  errno = 0;
   dbl = strtod (str, NULL);
   if (iserror != NULL) {
     *iserror = (errno == ERANGE);
@@ -1552,6 +1555,7 @@ sc_options_parse (int package_id, int err_priority, sc_options_t * opt,
       }
       break;
     case SC_OPTION_INT:
+      errno = 0;
       ilong = strtol (optarg, NULL, 0);
       if (ilong < (long) INT_MIN || ilong > (long) INT_MAX || errno == ERANGE) {
         SC_GEN_LOGF (package_id, SC_LC_GLOBAL, err_priority,
@@ -1563,6 +1567,7 @@ sc_options_parse (int package_id, int err_priority, sc_options_t * opt,
       }
       break;
     case SC_OPTION_SIZE_T:
+      errno = 0;
 #ifndef SC_HAVE_STRTOLL
       ilonglong = (long long) strtol (optarg, NULL, 0);
 #else
@@ -1578,6 +1583,7 @@ sc_options_parse (int package_id, int err_priority, sc_options_t * opt,
       }
       break;
     case SC_OPTION_DOUBLE:
+      errno = 0;
       dbl = strtod (optarg, NULL);
       if (errno == ERANGE) {
         SC_GEN_LOGF (package_id, SC_LC_GLOBAL, err_priority,
